@@ -671,6 +671,36 @@ Definition has_real_oneof (md : message) : bool :=
 
 Definition opt_list {A} (o : option A) : list A := match o with Some a => [a] | None => [] end.
 
+(* ---- two keys of one JSON object that address the same struct field ----------------------------------------
+   encoding/json decode.go object(): every key is looked up (byExactName, else byFoldedName: the first field whose
+   case-folded name matches) and its value is decoded into that field, in document order; a field addressed by two
+   keys is assigned twice.  For a Go string / bool / number / enum field the later value overwrites the earlier one
+   and null is a no-op.  Slices, maps, pointers and nested structs would be re-sliced, merged or reset by null: the
+   model declines those. *)
+Definition go_plain_scalar (f : field) : bool :=
+  match f_card f with
+  | Singular => negb (is_msg_kind (f_kind f)) && negb (kind_eqb (f_kind f) KBytes)
+  | _ => false
+  end.
+Fixpoint clash_unm (fs : list field) : bool :=
+  match fs with
+  | [] => false
+  | f :: r => (negb (go_plain_scalar f) && existsb (fun g => str_eqb (f_name g) (f_name f)) r) || clash_unm r
+  end.
+Fixpoint last_wins (l : list (field * fval)) : list (field * fval) :=
+  match l with
+  | [] => []
+  | e :: r => if existsb (fun e' => str_eqb (f_name (fst e')) (f_name (fst e))) r then last_wins r else e :: last_wins r
+  end.
+
+(* json.Marshal of a map[string]json.RawMessage writes the keys in byte order (encode.go mapEncoder) *)
+Fixpoint raw_insert (e : str * json) (r : rawmap) : rawmap :=
+  match r with
+  | [] => [e]
+  | e' :: t => if str_leb (fst e) (fst e') then e :: r else e' :: raw_insert e t
+  end.
+Definition raw_sort (r : rawmap) : rawmap := fold_right raw_insert [] r.
+
 (* one element / value decoded by protojson.Unmarshal(raw, &T{}) *)
 Definition pj_elem (k : kind) (j : json) : res fval := pj_un E sc k j.
 
@@ -723,6 +753,8 @@ Fixpoint gj_un (fuel : nat) (k : kind) (j : json) {struct fuel} : res (option fv
       match jv with
       | JNull => ROk None
       | JObj kv =>
+          (* encoding/json: map keys must be strings, integers or TextUnmarshalers; map[bool]T is refused *)
+          if kind_eqb kk KBool then RErr (s "json: cannot unmarshal object into Go value of type map[bool]") else
           rall (map (fun e => key_of_text kk (fst e) >>= (fun key => gj_un n ek (snd e) >>= (fun o =>
                   match o with Some v => ROk (key, v) | None => RUnm (s "null map value") end))) kv)
           >>= (fun es => ROk (Some (FMap (sort_entries es))))
@@ -743,6 +775,8 @@ Fixpoint gj_un (fuel : nat) (k : kind) (j : json) {struct fuel} : res (option fv
                 if has_real_oneof md then RUnm (s "encoding/json into a struct with a oneof") else
                 match j with
                 | JObj kv =>
+                    if clash_unm (flat_map (fun e => opt_list (field_by_fold md (fst e))) kv)
+                    then RUnm (s "two keys of one object address the same slice, map, pointer or struct field") else
                     rall (map (fun e =>
                       match field_by_fold md (fst e) with
                       | None => ROk None
@@ -753,7 +787,7 @@ Fixpoint gj_un (fuel : nat) (k : kind) (j : json) {struct fuel} : res (option fv
                            | _ => gj_un n (f_kind f) (snd e)
                            end) >>= (fun o => ROk (option_map (fun v => (f, v)) o))
                       end) kv)
-                    >>= (fun ofs => ROk (Some (FM (assemble (flat_map opt_list ofs)))))
+                    >>= (fun ofs => ROk (Some (FM (assemble (last_wins (flat_map opt_list ofs))))))
                 | _ => RErr (s "json: cannot unmarshal into struct")
                 end
             | Own ft =>
@@ -781,6 +815,8 @@ Fixpoint gj_un (fuel : nat) (k : kind) (j : json) {struct fuel} : res (option fv
                             let raw' := fold_left (fun r cf => raw_del (flat_prefix f ++ jn cf) r) (m_fields cmd) raw in
                             match child with
                             | [] => ROk raw'
+                            (* (json.Marshal(childRaw) sorts the keys; the decoded child is dropped below, and whether
+                               decoding fails does not depend on the order of the keys) *)
                             | _ => gj_un n (f_kind f) (JObj child) >>= (fun _ => ROk raw')
                             end
                         end
@@ -812,7 +848,8 @@ Fixpoint gj_un (fuel : nat) (k : kind) (j : json) {struct fuel} : res (option fv
                                       let vmap := flat_map (fun cf => match raw_get (jn cf) raw with
                                                                       | Some v => [(jn cf, v)] | None => [] end) (m_fields cmd) in
                                       let raw' := fold_left (fun r cf => raw_del (jn cf) r) (m_fields cmd) raw in
-                                      gj_un n (f_kind f) (JObj vmap) >>= (fun ov =>
+                                      (* variantData, _ := json.Marshal(variantMap): keys in byte order *)
+                                      gj_un n (f_kind f) (JObj (raw_sort vmap)) >>= (fun ov =>
                                       let variant := match ov with Some v => v | None => FM [] end in
                                       match gj_fval (f_kind f) variant with
                                       | ROk vj => ROk (raw_set (jn f) vj raw')
